@@ -156,7 +156,9 @@ ApplyRollback(W, i) ==
                 ELSE IF C.atarget = T.rindex THEN << TxW([ra |-> InProgress]) >>
                 ELSE IF HasTx(W, C.aindex) /\ ( \/ C.aindex = i /\ W.txs[C.aindex].ca \in {Pending, InProgress}
                                                 \/ C.aindex > i /\ W.txs[C.aindex].ra \in Open ) THEN << >>
-                ELSE << CfgW([atarget |-> T.rindex]), TxW([ra |-> InProgress]) >>
+                \* the applied index names the transaction whose rollback is being applied from here on (the applied target is
+                \* the revision it restores): that is the transaction a configuration event has to wake
+                ELSE << CfgW([atarget |-> T.rindex, aindex |-> i]), TxW([ra |-> InProgress]) >>
     IN  CASE T.ra = Pending ->
                CASE T.ca = Pending ->
                       IF C.aord = T.cord - 1 /\ ~PrevApplyOpen(W, C)
